@@ -661,6 +661,9 @@ def _register(stdout: str, tag: str) -> Any:
     return tlc.plain(tlc.parse_tla(vals[0]))[1]
 
 
+_COV_CALLS = 0
+
+
 def validate(scn: Scenario, traces: List[Dict[str, Any]], timeout_s: int = 900, keep: bool = False) -> TraceVerdict:
     """Validate a batch of traces of one scenario in one TLC run (per-trace verdicts)."""
     wd = tlc.workdir_with_specs({"TraceScn.tla": wrapper_module(scn)})
@@ -669,7 +672,11 @@ def validate(scn: Scenario, traces: List[Dict[str, Any]], timeout_s: int = 900, 
         json.dump({"traces": [{"init": t["init"], "events": t["events"]} for t in traces]}, f)
     cfg = tlc.make_cfg(spec="TraceSpec", constants=dict(scn_constants(scn), TableDamaged=scn.damage is not None), constraints=["Progress"],
                        postcondition="Verdicts", check_deadlock=False)
-    res = tlc.run_tlc("TraceScn", cfg, wd=wd, workers=1, timeout_s=timeout_s, env={"TRACE_FILE": tf}, coverage=True,
+    # action coverage is collected on the first few batches of a process only (it slows TLC down noticeably): enough to
+    # show in the evidence which trace-spec actions the real executions exercise
+    global _COV_CALLS
+    _COV_CALLS += 1
+    res = tlc.run_tlc("TraceScn", cfg, wd=wd, workers=1, timeout_s=timeout_s, env={"TRACE_FILE": tf}, coverage=_COV_CALLS <= 4,
                       label=f"Trace_L1[{scn.name}] x{len(traces)}", keep_wd=keep)
     if res.violated or res.timed_out:
         raise MachineryError(f"trace validation run failed: {res.violated} timed_out={res.timed_out}\n{res.error_trace[:3000]}")
